@@ -654,48 +654,83 @@ pub fn miri_families() -> Vec<(ElemKind, Spec)> {
     v
 }
 
-/// Small worlds for Engine B (Miri): 2-3 free-running threads on one shared instance.
+/// Consecutive families of one element type grouped so that a Miri case stays cheap (<= 3 instances, total length <= 100).
+pub fn miri_family_chunks() -> Vec<(ElemKind, Vec<Spec>)> {
+    let mut out: Vec<(ElemKind, Vec<Spec>)> = Vec::new();
+    for (e, s) in miri_families() {
+        let fits = match out.last() {
+            Some((le, v)) => *le == e && v.len() < 3 && v.iter().map(|x| x.len()).sum::<usize>() + s.len() <= 100,
+            None => false,
+        };
+        if fits {
+            out.last_mut().unwrap().1.push(s);
+        } else {
+            out.push((e, vec![s]));
+        }
+    }
+    out
+}
+
+/// Small worlds for Engine B (Miri): 2-3 free-running threads on shared instances.
 fn gen_miri_shared(prop: &str, rng: &mut Rng, tier: Tier, index: u64, verif_seed: u64) -> Case {
-    let fams = miri_families();
+    let chunks = miri_family_chunks();
     // three of four cases walk the family list (a different stretch of it for every VERIF_SEED), the rest are random
-    let (elem, spec) = if index % 4 != 3 {
-        let pos = (index - index / 4).wrapping_add(verif_seed.wrapping_mul(53)) as usize % fams.len();
-        fams[pos].clone()
+    let (elem, specs) = if index % 4 != 3 {
+        let pos = (index - index / 4).wrapping_add(verif_seed.wrapping_mul(53)) as usize % chunks.len();
+        chunks[pos].clone()
     } else {
         let elem = pick_elem(rng, 30);
         let nmax = if tier.thorough { 400 } else { 128 };
-        (elem, gen_spec(rng, nmax, elem, 40, 2))
+        (elem, vec![gen_spec(rng, nmax, elem, 40, 2)])
     };
     let mut case = base_case(prop, elem, rng);
-    case.insts.push(InstDef { spec, dir: pick_dir(rng), from_planner: None });
+    let dir = pick_dir(rng);
+    for spec in specs.iter() {
+        case.insts.push(InstDef { spec: spec.clone(), dir, from_planner: None });
+    }
+    let ninst = case.insts.len();
     let nthreads = 2 + rng.below(2) as usize;
     case.threads = vec![Vec::new(); nthreads];
     let inputs: Vec<InputSpec> = (0..2).map(|_| InputSpec { seed: rng.next(), kind: InputKind::Dense }).collect();
     match prop {
         "C11" => {
+            // every thread calls every instance (in its own order), so that two threads are inside the same kernel and
+            // inside different instances of related kernels at the same time
             for t in 0..nthreads {
-                for _ in 0..1 + rng.below(2) {
+                let mut order: Vec<usize> = (0..ninst).collect();
+                rng.shuffle(&mut order);
+                for i in order {
+                    let op = good_call(rng, InstRef::Shared(i as u16), &ENTRIES, 3, &inputs);
+                    case.threads[t].push(op);
+                }
+                if ninst == 1 && rng.chance(0.5) {
                     let op = good_call(rng, InstRef::Shared(0), &ENTRIES, 3, &inputs);
                     case.threads[t].push(op);
                 }
             }
         }
         "C15" => {
-            case.shared_bufs.push(SharedBufDef { inst: 0, k: 1 + rng.below(3) as u8, input: inputs[0], entry: Entry::Immut, place: Place::Right });
+            for i in 0..ninst {
+                case.shared_bufs.push(SharedBufDef { inst: i as u16, k: 1 + rng.below(3) as u8, input: inputs[i % 2], entry: Entry::Immut, place: Place::Right });
+            }
             for t in 0..nthreads {
-                case.threads[t].push(Op::SharedImmut { inst: InstRef::Shared(0), buf: 0 });
+                for i in 0..ninst {
+                    case.threads[t].push(Op::SharedImmut { inst: InstRef::Shared(i as u16), buf: i as u16 });
+                }
                 if rng.chance(0.5) {
-                    case.threads[t].push(Op::BadCall { inst: InstRef::Shared(0), entry: Entry::Immut, fault: pick_fault(rng), place: Place::Right, seed: rng.next() });
+                    case.threads[t].push(Op::BadCall { inst: InstRef::Shared(rng.below(ninst as u64) as u16), entry: Entry::Immut, fault: pick_fault(rng), place: Place::Right, seed: rng.next() });
                 }
             }
         }
         _ => {
             // C07: adjacent sub-slices of one allocation processed by different threads
-            let k = nthreads as u8 + rng.below(2) as u8;
-            let entry = *rng.pick(&ENTRIES);
-            case.shared_bufs.push(SharedBufDef { inst: 0, k, input: inputs[0], entry, place: Place::Right });
-            for chunk in 0..k {
-                case.threads[chunk as usize % nthreads].push(Op::SplitChunk { inst: InstRef::Shared(0), entry, buf: 0, chunk });
+            for i in 0..ninst {
+                let k = nthreads as u8 + rng.below(2) as u8;
+                let entry = *rng.pick(&ENTRIES);
+                case.shared_bufs.push(SharedBufDef { inst: i as u16, k, input: inputs[i % 2], entry, place: Place::Right });
+                for chunk in 0..k {
+                    case.threads[(chunk as usize + i) % nthreads].push(Op::SplitChunk { inst: InstRef::Shared(i as u16), entry, buf: i as u16, chunk });
+                }
             }
         }
     }
